@@ -92,7 +92,8 @@ class VIntBag(V):
 def m_intbag_append(interp, recv, argv, kwv):
     x = argv[0]
     if x.kind != 'int':
-        raise Undecided('append of a %s to a list of ints grown in a loop' % x.kind)
+        recv.tainted = True             # not a list of ints: its content is unknown from here on (any READ of it is outside the subset)
+        return VNone
     recv.cnt = z3.Store(recv.cnt, x.z, recv.cnt[x.z] + 1)
     return VNone
 
@@ -169,6 +170,11 @@ def sum_(interp, argv):
 
 def dict_(interp, argv):
     v = argv[0]
+    if v.kind == 'opaque' and v.tag.startswith('recitems-without-id:'):
+        w = getattr(interp.ctx, 'recworld', None)
+        if w is None:
+            raise Undecided('dict() of record items')
+        return VOpaque(w.attrs(v.z), 'nodeattrs')
     if v.kind == 'snap':
         g = v.g
         SKey, SCnt = g['SKey'], g['SCnt']      # a copy: later writes to the graph do not show through
@@ -257,6 +263,8 @@ def mapped_nodemap(interp, fr, g, e, view):
 
 def next_(interp, argv):
     v = argv[0]
+    if len(argv) == 1 and v.kind == 'opaque' and v.tag == 'counter':
+        return VInt(fresh('count', Int))
     if len(argv) == 1 and v.kind == 'seqiter':
         if interp.ctx.branch(v.pos >= v.seq.n, 'StopIteration'):
             raise PyRaise('StopIteration', 'next() of an exhausted iterator')
@@ -273,6 +281,8 @@ def next_(interp, argv):
 def set_(interp, argv):
     v = argv[0] if argv else None
     if v is not None and v.kind == 'intbag':
+        if getattr(v, 'tainted', False):
+            raise Undecided('set() of a list with unknown content')
         cnt = v.cnt
         return VIntSet(lambda q: cnt[q] >= 1, lambda q: [cnt[q]], 'set_of_list')
     if v is not None and v.kind == 'list' and not v.esc and not v.items:
@@ -440,6 +450,9 @@ def symbolic_comprehension(interp, e, fr, it, what):
         from .loops import VBag
         NodeIn = it.g['NodeIn']
         return VBag([Node], lambda a: NodeIn[a], lambda a: VNode(a), note='nodes')
+    if it.kind == 'opaque' and it.tag.startswith('recitems:') and what == 'list':
+        # ((make_str(k), v) for k, v in record.items() if k != <id key>): the record's other attributes, kept opaque
+        return VOpaque(it.z, 'recitems-without-id:' + it.tag.split(':', 1)[1])
     if it.kind == 'seqiter':
         rest = it
         it = VSeq(z3.If(rest.seq.n - rest.pos > 0, rest.seq.n - rest.pos, IntV(0)), lambda k, r=rest, p=rest.pos: r.seq.elem(k + p), dict(rest.seq.meta))
